@@ -18,6 +18,10 @@ RULE = (
     "digested under a matrix of interpreter configurations. distinct = distinct output bytes; non-trivial = container or "
     "non-ASCII/float/escape-bearing scalar."
 )
+RULE_ADDENDUM = (
+    'Additional: artifact records signed through the repodata path compared with the RFC 8032 signature over the reference bytes; several threads serialising one shared unsorted object; every kind of unrelated library activity (incl. an interactive session that displays a document with other layout settings) once per shard, then the same oracle again.'
+)
+RULE = RULE + " " + RULE_ADDENDUM
 LIMITS = [
     "Python str holding an adjacent high+low surrogate pair as two code units is outside the parser-value domain (grey, skipped)",
     "integers above 4000 digits (the interpreter's own int->str limit is 4300) not generated",
